@@ -1,8 +1,8 @@
 SPECIFICATION Spec
 CONSTANTS
-  Secrets = {"k1", "k2"}
+  Secrets = {"k1", "k2", "k1 "}
   Users = {"@alice:example.org", "@Alice:example.org", "@bob:example.org"}
-  Durations = {0, 5, 3600}
+  Durations = {0, 5, 3600, 3601, 86400}
   Offsets <- OffsetsQuick
   MaxAlter = 1
 INVARIANTS TypeOK Sound Complete RevealsUser Emit
